@@ -5,13 +5,22 @@ Line-protocol front end of the Par/Seq tree model (engine `parseq`, property C16
 
 ```
 ps new                          -> ok
-ps leaf <tag> <r> <w>           -> ok                       (declared reads / writes, `ty.dyn,..` or `-`)
+ps leaf <tag> <r> <w>           -> ok                       (declared reads / writes, `ty.dyn,..` or `-`;
+                                                             same as flavour `n`, creating nothing)
+ps leaf <tag> <r> <w> <n|d|s> <creates>
+                                -> ok                       (`n`: `System::accessor` overridden with <r> <w>, accessor
+                                                             type without default; `d`: the same, `try_new()` gives an
+                                                             accessor that declares nothing; `s`: static system data —
+                                                             nothing overridden, `try_new()` gives <r> <w>)
 ps tree <tok> ..                -> built <leaf tags> | panic <node> <k> | malformed
                                    tokens: `P[` `S[` `]` <tag>; node = position of the `P[`
 ps with-check <tok> .. | <tok> .. -> pass | fail | panic-inside | malformed
                                    (the check of `Par::new(h).with(s)` for the two trees)
 ps reads | ps writes            -> what the root reports, in order
+ps rw <tok> ..                  -> <reads> <writes> of that tree built on its own | panic-inside | malformed
 ps setup                        -> leaf tags in the order their `setup` hook runs
+ps setup <i|t> <present>        -> <leaf tags> <created>    (one more setup call on the built `ParSeq`, through
+                                                             `ParSeq::setup` / `RunNow::setup`, on a world holding <present>)
 ps begin                        -> ok                       (start validating one dispatch of the tree)
 ps ev <F|D> <tag>               -> ok | reject ..
 ps end                          -> accept | reject incomplete
@@ -21,14 +30,21 @@ namespace Shred.Drv.ParSeq
 open Shred Shred.Drv
 
 structure St where
-  decls : List (Nat × Decl) := []
-  tree : Option PS := none
+  specs : List (Nat × PS.LeafSpec) := []
+  /-- the `ParSeq` of the case, once built; every later `setup` goes through `Disp.setup` -/
+  disp : Option PS.Disp := none
   tr : Option (RTask Nat) := none
 
-def declOf (ds : List (Nat × Decl)) (n : Nat) : Decl :=
+def St.tree (st : St) : Option PS := st.disp.map (·.run)
+
+/-- a leaf the harness never announced is a system with `()` data: static, declares nothing -/
+def specOf (ds : List (Nat × PS.LeafSpec)) (n : Nat) : PS.LeafSpec :=
   match ds.find? (fun p => p.1 == n) with
   | some p => p.2
-  | none => ⟨[], [], 0⟩
+  | none => ⟨some ⟨[], [], 0⟩, none, []⟩
+
+def declOf (ds : List (Nat × PS.LeafSpec)) : Nat → Decl := PS.declOf (specOf ds)
+def createsOf (ds : List (Nat × PS.LeafSpec)) (n : Nat) : List ResId := (specOf ds n).creates
 
 def parseTok (s : String) : Option PS.Tok :=
   if s == "P[" then some .openPar
@@ -49,37 +65,71 @@ def step (st : St) (ws : List String) : St × String :=
   | ["new"] => ({}, "ok")
   | ["leaf", tag, r, w] =>
     match tag.toNat? with
-    | some tag => ({ st with decls := (tag, ⟨parseRes r, parseRes w, 0⟩) :: st.decls }, "ok")
+    | some tag => ({ st with specs := (tag, ⟨none, some ⟨parseRes r, parseRes w, 0⟩, []⟩) :: st.specs }, "ok")
+    | none => (st, "bad-op")
+  | ["leaf", tag, r, w, flav, cr] =>
+    match tag.toNat? with
+    | some tag =>
+      let d : Decl := ⟨parseRes r, parseRes w, 0⟩
+      let spec? : Option PS.LeafSpec :=
+        if flav == "n" then some ⟨none, some d, parseRes cr⟩
+        else if flav == "d" then some ⟨some ⟨[], [], 0⟩, some d, parseRes cr⟩
+        else if flav == "s" then some ⟨some d, none, parseRes cr⟩
+        else none
+      match spec? with
+      | some sp => ({ st with specs := (tag, sp) :: st.specs }, "ok")
+      | none => (st, "bad-op")
     | none => (st, "bad-op")
   | "tree" :: toks =>
     match parseToks toks with
     | none => (st, "bad-op")
     | some toks =>
-      match PS.build (declOf st.decls) toks with
-      | .built t => ({ st with tree := some t, tr := none }, s!"built {showNatList t.leaves}")
-      | .panic node k => ({ st with tree := none, tr := none }, s!"panic {node} {k}")
-      | .malformed => ({ st with tree := none, tr := none }, "malformed")
+      match PS.build (declOf st.specs) toks with
+      | .built t => ({ st with disp := some ⟨t⟩, tr := none }, s!"built {showNatList t.leaves}")
+      | .panic node k => ({ st with disp := none, tr := none }, s!"panic {node} {k}")
+      | .malformed => ({ st with disp := none, tr := none }, "malformed")
   | "with-check" :: rest =>
     let (a, b) := splitBar rest
     match parseToks a, parseToks b with
     | some ta, some tb =>
-      match PS.build (declOf st.decls) ta, PS.build (declOf st.decls) tb with
-      | .built h, .built s => (st, if PS.withCheck (declOf st.decls) h s then "pass" else "fail")
+      match PS.build (declOf st.specs) ta, PS.build (declOf st.specs) tb with
+      | .built h, .built s => (st, if PS.withCheck (declOf st.specs) h s then "pass" else "fail")
       | .malformed, _ => (st, "malformed")
       | _, .malformed => (st, "malformed")
       | _, _ => (st, "panic-inside")
     | _, _ => (st, "bad-op")
   | ["reads"] =>
     match st.tree with
-    | some t => (st, showRes (PS.reads (declOf st.decls) t))
+    | some t => (st, showRes (PS.reads (declOf st.specs) t))
     | none => (st, "bad-op")
   | ["writes"] =>
     match st.tree with
-    | some t => (st, showRes (PS.writes (declOf st.decls) t))
+    | some t => (st, showRes (PS.writes (declOf st.specs) t))
     | none => (st, "bad-op")
+  | "rw" :: toks =>
+    match parseToks toks with
+    | none => (st, "bad-op")
+    | some toks =>
+      match PS.build (declOf st.specs) toks with
+      | .built t => (st, s!"{showRes (PS.reads (declOf st.specs) t)} {showRes (PS.writes (declOf st.specs) t)}")
+      | .panic _ _ => (st, "panic-inside")
+      | .malformed => (st, "malformed")
   | ["setup"] =>
     match st.tree with
     | some t => (st, showNatList (PS.setupOrder t))
+    | none => (st, "bad-op")
+  | ["setup", via, present] =>
+    match st.disp with
+    | some d =>
+      let via? : Option PS.Via :=
+        if via == "i" then some .inherent else if via == "t" then some .runNow else none
+      match via? with
+      | some v =>
+        let w := parseRes present
+        let r := d.setup v (createsOf st.specs) w
+        -- the dispatcher after the call is the state the next call sees
+        ({ st with disp := some r.1 }, s!"{showNatList r.2.1} {showRes (r.2.2.filter (fun x => !(w.contains x)))}")
+      | none => (st, "bad-op")
     | none => (st, "bad-op")
   | ["begin"] =>
     match st.tree with
